@@ -513,6 +513,17 @@ fn read_register(
 
 #[inline(never)]
 fn scalar_from_bytes<T: Copy>(bytes: &Bytes) -> T {
+    #[cfg(bs_verif)]
+    if bytes.len() < std::mem::size_of::<T>() {
+        crate::verif::event(
+            "oob_read",
+            &format!(
+                "dwarf/eval.rs:scalar_from_bytes have={} need={}",
+                bytes.len(),
+                std::mem::size_of::<T>()
+            ),
+        );
+    }
     let ptr = bytes.as_ptr();
     unsafe { std::ptr::read_unaligned::<T>(ptr as *const T) }
 }
